@@ -199,15 +199,21 @@ class C19(PropBase):
         kind = 0 if os_ == 0 else rng.below(2)
         ctx = [rng.choice([rng.below(1 << 47), rng.below(1 << 20), rng.below(1 << 64), 1 << rng.below(64)]) for _ in range(17)]
         ctx[16] = (rng.below(1 << 40) | 0x10000) & ~0xf
+        ctx[7] = ((rng.below(1 << 46) | (1 << 46)) & ~0xf) if rng.chance(7, 8) else rng.choice([0, 8, 16])
         flags = 0
         if os_ == 0:
             code, nparams, info0 = rng.choice([0xC0000005, 0xC0000005, 0xC0000005, 0xC0000006, 0xC000001D]), rng.below(4), rng.choice([0, 1, 8, 2])
         else:
             code, nparams, info0 = rng.choice([11, 11, 7, 4]), 0, 0
             flags = rng.choice([0, 1, 2, 0x80, 0x80, 5, 0xfffffffa])
-        opc, digit, lea = rng.choice(Q_OPCODES)
-        w = 1 if opc == 0xff or rng.chance(3, 4) else 0
-        form = rng.choice(["base", "base", "base_index", "base_index", "index_disp", "abs", "rip"])
+        cls = rng.choice(["mem"] * 12 + ["callmem", "jmpmem", "pushmem", "popmem", "callreg", "jmpreg", "pushreg", "popreg",
+                                         "ret", "jcc", "callimm", "jmpimm", "nop"])
+        if scen == 1:
+            form = rng.choice(["base", "base_index"])
+        elif scen == 2:
+            form = rng.choice(["base_index", "index_disp"])
+        else:
+            form = rng.choice(["base", "base", "base_index", "base_index", "index_disp", "abs", "rip"])
         base = rng.below(16)
         index = rng.choice([x for x in range(16) if x != 4])
         scale_log = rng.below(4)
@@ -216,25 +222,64 @@ class C19(PropBase):
             disp = rng.choice([disp, rng.below(1 << 31), -rng.below(1 << 31)])
         if form == "base":
             index = None
+        lea, imp, ipk, ipv, ms, dec, reg = 0, 0, 0, 0, 1, None, rng.below(16)
+        pad = bytes(rng.below(256) for _ in range(16))
+        if cls in ("callmem", "jmpmem") and rng.chance(1, 2):
+            form, disp = "rip", rng.range(0, 12)          # the target is read from the planted bytes
+        if cls == "mem":
+            opc, digit, lea = rng.choice(Q_OPCODES)
+            w = 1 if opc == 0xff or rng.chance(3, 4) else 0
+            enc, dec = enc_instr(opc, digit, w, reg, form, base, index, scale_log, disp, rng.chance(1, 5))
+        elif cls in ("callmem", "jmpmem", "pushmem"):
+            digit = {"callmem": 2, "jmpmem": 4, "pushmem": 6}[cls]
+            enc, dec = enc_instr(0xff, digit, rng.below(2), 0, form, base, index, scale_log, disp, rng.chance(1, 5))
+            imp = 0 if cls == "jmpmem" else 1
+        elif cls == "popmem":
+            enc, dec = enc_instr(0x8f, 0, rng.below(2), 0, form, base, index, scale_log, disp, rng.chance(1, 5))
+            imp = 2
+        else:
+            form = None
+            rexb = bytes([0x41]) if reg >= 8 else b""
+            if cls == "callreg":
+                enc, imp, ipk, ipv = rexb + bytes([0xff, 0xd0 | (reg & 7)]), 1, 2, HW2ID[reg]
+            elif cls == "jmpreg":
+                enc, imp, ipk, ipv, ms = rexb + bytes([0xff, 0xe0 | (reg & 7)]), 0, 2, HW2ID[reg], 0
+            elif cls == "pushreg":
+                enc, imp = rexb + bytes([0x50 | (reg & 7)]), 1
+            elif cls == "popreg":
+                enc, imp = rexb + bytes([0x58 | (reg & 7)]), 2
+            elif cls == "ret":
+                enc, imp, ipk = bytes([0xc3]), 2, 4
+            elif cls == "jcc":
+                enc, ipk, ms = bytes([0x70 | rng.below(16), rng.below(256)]), 1, 0
+            elif cls == "callimm":
+                enc, imp, ipk = bytes([0xe8]) + bytes(rng.below(256) for _ in range(4)), 1, 1
+            elif cls == "jmpimm":
+                enc, ipk, ms = bytes([0xeb, rng.below(256)]), 1, 0
+            else:
+                enc, ms = bytes([0x90]), 0
         regs = []
         tag = "random"
-        bid = HW2ID[base] if form in ("base", "base_index") else (16 if form == "rip" else None)
-        iid = HW2ID[index] if form in ("base_index", "index_disp") else None
+        bid = (HW2ID[base] if form in ("base", "base_index") else (16 if form == "rip" else None)) if dec else None
+        iid = (HW2ID[index] if form in ("base_index", "index_disp") else None) if dec else None
         if scen == 0:
             # platform sweep: every processor_architecture value, power-of-two / region-adjacent crash addresses
             tag = "platform"
             arch = rng.choice(ARCHES)
-        elif scen == 1 and form in ("base", "base_index"):
-            tag = "null_base"
-            ctx[bid] = 0
-            if iid is not None and iid != bid:
-                ctx[iid] = rng.choice([0, 1, 8, rng.below(1 << 16), rng.below(1 << 47)])
+        elif scen == 1 and (bid is not None and bid != 16 or cls in ("callreg", "jmpreg")):
+            tag = "null_base" if dec else "null_target"
+            if dec:
+                ctx[bid] = 0
+                if iid is not None and iid != bid:
+                    ctx[iid] = rng.choice([0, 1, 8, rng.below(1 << 16), rng.below(1 << 47)])
+            else:
+                ctx[ipv] = 0
         elif scen == 2 and iid is not None:
             tag = "null_index_only"
             ctx[iid] = 0
             if bid is not None and bid != iid and bid != 16 and ctx[bid] == 0:
                 ctx[bid] = rng.below(1 << 47) | 1
-        elif scen == 3:
+        elif scen in (3, 4):
             tag = "gpf"
             if rng.chance(1, 2):
                 os_, kind, code, nparams, info0, flags = 0, 0, 0xC0000005, rng.choice([2, 2, 2, 1, 3]), rng.choice([0, 0, 0, 1, 8]), 0
@@ -243,9 +288,7 @@ class C19(PropBase):
                 code, nparams, info0, flags = rng.choice([11, 7, 11, 7, 4]), 0, 0, rng.choice([0x80, 0x80, 0x80, 0, 1])
             if rng.chance(1, 6):
                 arch = rng.choice([0x8002, 0x8004, 12, 0])
-        dec = enc = None
-        enc, dec = enc_instr(opc, digit, w, rng.below(16), form, base, index, scale_log, disp, rng.chance(1, 5))
-        centre = operand_value(ctx, dec)
+        centre = operand_value(ctx, dec) if dec else (ctx[ipv] if ipk == 2 else ctx[7])
         # regions: one bit away from the operand address / from the operand registers / power-of-two addresses
         n = rng.range(0, 4)
         for _ in range(n):
@@ -270,23 +313,42 @@ class C19(PropBase):
             else:
                 regs.append((lo, min(U64, lo + size - 1), rng.below(8)))
         if tag == "gpf":
-            # operand address in the non-canonical range, one high bit away from a mapped canonical address
+            # an accessed address in the non-canonical range, one high bit away from a mapped canonical address
             tgt = (rng.below(1 << 47) & ~0xfff) | rng.below(64)
             hi_bit = rng.range(48, 63) if rng.chance(5, 6) else rng.range(40, 47)
             want = tgt ^ (1 << hi_bit)
-            if bid is not None and bid != 16 and (iid is None or iid != bid):
-                cur = operand_value(ctx, dec)
-                ctx[bid] = (ctx[bid] + want - cur) & U64
-            elif iid is not None and dec[2] == 1:
-                cur = operand_value(ctx, dec)
-                ctx[iid] = (ctx[iid] + want - cur) & U64
+            if dec and bid is not None and bid != 16 and (iid is None or iid != bid):
+                ctx[bid] = (ctx[bid] + want - operand_value(ctx, dec)) & U64
+            elif dec and iid is not None and dec[2] == 1:
+                ctx[iid] = (ctx[iid] + want - operand_value(ctx, dec)) & U64
+            elif not dec and ipk == 2:
+                ctx[ipv] = want
+            elif not dec and imp:
+                ctx[7] = want
             if kind == 0:
                 regs.append((tgt & ~0xfff, 0x1000, rng.choice([2, 4, 0x20, 1])))
             else:
                 regs.append((tgt & ~0xfff, (tgt & ~0xfff) + 0xfff, rng.below(8)))
-            if bid == 16:
-                pass
-        centre = operand_value(ctx, dec)
+        centre = operand_value(ctx, dec) if dec else (ctx[ipv] if ipk == 2 else ctx[7])
+        # dump memory the analysis can read: the planted bytes at rip, the stack bytes at rsp
+        planted = enc + pad
+        stack = b""
+        if cls == "ret" and rng.chance(3, 4):
+            stack = rng.choice([bytes(8), (rng.below(1 << 47)).to_bytes(8, "little"), (rng.below(1 << 64)).to_bytes(8, "little")]) + bytes(8)
+        mems = [(ctx[16], planted)] + ([(ctx[7], stack)] if stack else [])
+
+        def read_u64(addr):
+            for (lo, data) in mems:
+                if lo <= addr and addr + 8 <= lo + len(data):
+                    return int.from_bytes(data[addr - lo:addr - lo + 8], "little")
+            return None
+        overlap = stack and not (ctx[7] + len(stack) <= ctx[16] or ctx[16] + len(planted) <= ctx[7])
+        if cls in ("callmem", "jmpmem"):
+            v = read_u64(operand_value(ctx, dec))
+            ipk, ipv = (3, v) if v is not None else (1, 0)
+        elif cls == "ret":
+            v = read_u64(ctx[7]) if stack else None
+            ipk, ipv = (3, v) if v is not None else (1, 0)
         # crash address as the OS would report it
         if tag == "gpf":
             if os_ == 0:
@@ -302,21 +364,26 @@ class C19(PropBase):
             a = rng.choice([centre, centre, centre, rng.below(1 << 47), 0])
             info1, excaddr = a, (a if os_ == 1 else ctx[16])
         use_ctx = arch in (9, 12) and not (tag == "platform" and rng.chance(1, 3))
+        stacks = stack.hex() if stack else "-"
         if not use_ctx:
-            ctxs, instr, decs = "-", "-", "-"
+            ctxs, instr, decs, stacks = "-", "-", "-", "-"
         elif arch != 9:
-            ctxs, instr, decs = "A " + " ".join(map(str, ctx)), enc.hex(), "-"
+            ctxs, instr, decs = "A " + " ".join(map(str, ctx)), planted.hex(), "-"
         else:
             ctxs = "A " + " ".join(map(str, ctx))
             if rng.chance(1, 12):
-                instr, decs = "-", "-"
+                instr, decs, stacks = "-", "-", "-"
                 tag += "_nobytes"
             else:
-                instr = enc.hex()
-                decs = "D %d 1 %d %d %d %d" % ((lea,) + dec)
+                instr = planted.hex()
+                ops = [dec] if dec else []
+                decs = "D %d %d %d %d %d %d%s" % (lea, ms, imp, ipk, ipv, len(ops), "".join(" %d %d %d %d" % o for o in ops))
+                if overlap:
+                    decs = "U"
         dist["Q_" + tag] = dist.get("Q_" + tag, 0) + 1
-        return "Q %d %d %d %d %d %d %d %d %s %s %s %s" % (arch, os_, code, flags, nparams, info0, info1, excaddr, ctxs, instr, decs,
-                                                          self.fmt_regs(kind, regs))
+        dist["Qi_" + cls] = dist.get("Qi_" + cls, 0) + 1
+        return "Q %d %d %d %d %d %d %d %d %s %s %s %s %s" % (arch, os_, code, flags, nparams, info0, info1, excaddr, ctxs, instr, stacks,
+                                                             decs, self.fmt_regs(kind, regs))
 
     def gen_cases(self, tier, seed):
         rng = Rng(seed)
@@ -415,7 +482,7 @@ class C19(PropBase):
             dist["planted_instr"] += instr != "-"
         # instructions without a memory operand (no accesses, no registers): nop / mov rax,rbx
         for instr in ("90", "4889d8"):
-            cases.append("Q 9 1 11 1 0 0 0 65536 A %s %s D 0 0 0 1 0 4096 4" % (" ".join(["4096"] * 17), instr))
+            cases.append("Q 9 1 11 1 0 0 0 65536 A %s %s - D 0 0 0 0 0 0 0 1 0 4096 4" % (" ".join(["4096"] * 17), instr))
         for _ in range(4000 if tier == "quick" else 40000):
             cases.append(self.gen_q(rng, dist))
             dist["Q"] = dist.get("Q", 0) + 1
@@ -488,7 +555,7 @@ class C19(PropBase):
 
     def oracle_q(self, t, ans):
         arch, os_, code, flags, nparams, info0, info1, excaddr = [int(x) for x in t[1:9]]
-        adj, fl = ans.split("#", 1)
+        adj, fl = ans.split("#")[:2]
         flips = parse_flips(fl)
         if arch not in LIVE_ARCH and flips:
             return "bit flips reported for processor_architecture %#x (32-bit, ARM64/ARM64_OLD or unknown)" % arch
@@ -505,9 +572,9 @@ class C19(PropBase):
         else:
             ctx = [int(x) for x in t[i + 1:i + 18]]
             i += 18
-        i += 1  # instr
+        i += 2  # instr, stack
         if t[i] == "D":
-            i += 3 + 4 * int(t[i + 2])
+            i += 7 + 4 * int(t[i + 6])
         else:
             i += 1
         kind, n = int(t[i]), int(t[i + 1])
@@ -563,6 +630,8 @@ class C19(PropBase):
         return None
 
     def nontrivial(self, case, ans):
+        if case.startswith("Q"):
+            return len(ans.split("#")) > 1 and bool(ans.split("#")[1])
         body = ans.split("#", 1)[1] if case.startswith("P") and "#" in ans else ans
         return bool(body) and not body.startswith("P;;")
 
